@@ -860,7 +860,7 @@ func (p *Prog) descendInto(in ssa.Instruction) *ssa.Function {
 		return nil
 	}
 	g := p.calleeOf(c)
-	if g == nil || !p.isPlainHelper(g) {
+	if g == nil || !p.isPlainHelper(g) || p.queueWrapper(g) != nil {
 		return nil
 	}
 	return g
